@@ -58,6 +58,12 @@ type channel struct {
 // hole is the result of a call into a black-holed package (logging, metrics).
 type hole struct{}
 
+// hostFunc is a function value implemented by the executor (e.g. a context cancel func).
+type hostFunc struct {
+	name string
+	f    func(in *interp, args []value) value
+}
+
 // nativeBox carries a host Go value through interpreted code opaquely.
 type nativeBox struct{ v interface{} }
 
@@ -470,7 +476,7 @@ func (in *interp) equals(t types.Type, x, y value) value {
 			return true
 		}
 		return in.equals(x.t, x.v, y.v)
-	case *ssa.Function, *closure, *ssa.Builtin:
+	case *ssa.Function, *closure, *ssa.Builtin, *hostFunc:
 		return x == y
 	}
 	panic(abortPath{"UNSUPPORTED", fmt.Sprintf("comparing uncomparable type %s (%T)", t, x)})
